@@ -67,6 +67,11 @@ def main():
     keep = "--keep" in args
     if keep:
         args.remove("--keep")
+    reuse = None
+    if "--reuse-steps" in args:
+        # the demonstration and the existing tests were already run for this change (same patch, same
+        # HEAD of /repo apart from later fix: commits): take those outcomes from an earlier result file
+        i = args.index("--reuse-steps"); reuse = args[i + 1]; del args[i:i + 2]
     tier = "quick"
     props = None
     if "--tier" in args:
@@ -100,7 +105,20 @@ def main():
         os.remove(dst)
         return rc, out
 
-    if dst and tests:
+    prev = None
+    if reuse and os.path.exists(reuse):
+        try:
+            prev = json.load(open(reuse))
+        except ValueError:
+            prev = None
+        if prev and not (prev.get("steps", {}).get("demo_passes_on_head") and prev["steps"].get("demo_fails_with_change") and prev["steps"].get("existing_tests_pass_with_change")):
+            prev = None
+    if prev:
+        sh(["git", "apply", patch], cwd=EVAL)
+        summary["steps"].update({k: prev["steps"][k] for k in ("demo_passes_on_head", "demo_fails_with_change", "existing_tests_pass_with_change")})
+        summary["steps"]["reused_from"] = os.path.basename(reuse)
+        summary["existing_tests"] = prev.get("existing_tests", {})
+    elif dst and tests:
         rc0, out0 = run_demo()                      # on HEAD
         sh(["git", "apply", patch], cwd=EVAL)
         rc1, out1 = run_demo()                      # with the change
@@ -116,7 +134,7 @@ def main():
     # existing tests of touched packages, with the change
     ok = True
     details = {}
-    for d in sorted({os.path.dirname(t) for t in touched}):
+    for d in ([] if prev else sorted({os.path.dirname(t) for t in touched})):
         rc, out = go_test(d)
         good = rc == 0 or "no test files" in out
         if not good and "TestDisableBlockPoller" in out:
@@ -124,8 +142,9 @@ def main():
             good = rc == 0
         details[d] = "ok" if good else out[-600:]
         ok = ok and good
-    summary["steps"]["existing_tests_pass_with_change"] = ok
-    summary["existing_tests"] = details
+    if not prev:
+        summary["steps"]["existing_tests_pass_with_change"] = ok
+        summary["existing_tests"] = details
     # the checks
     summary["checks"] = {}
     for p in props:
